@@ -26,7 +26,7 @@ FUNCS = {
     "const": lambda u: 1.0,
     "neg": lambda u: float(-2.0 - np.sum(np.abs(u - 0.3))),
     # a smooth step written with numpy scalars: np.exp overflows to inf on one side (harmlessly, the term becomes 0)
-    "step": lambda u: float(np.sum(1.0 / (1.0 + np.exp(-4000.0 * (np.asarray(u, dtype=np.float64) - 0.3))) + 0.1 * (u - 0.05) ** 2)),
+    "step": lambda u: float(np.sum(1.0 / (1.0 + np.exp(-4000.0 * (np.asarray(u, dtype=np.float64) - 0.9))) + 0.1 * (u - 0.05) ** 2)),
 }
 
 
